@@ -120,8 +120,24 @@ def run(pid):
     log("sync runs with boundary ids: %d runs, %d completed, drift in %d" % (ds["runs"], ds["completed_runs"], ds["drift"]))
     for k, v in ds["drift_kinds"].items():
         print("DRIFT property=%s count=%d kind=sync run: %s" % (pid, v, k))
+    # (c) the back ends' own encodings: stored share data and public parameters (ASN.1 with the party identifiers) of real BLS / PS
+    # key generations among boundary identifiers, reloaded into fresh signers / verifiers: every subset signs and verifies
+    import eng_stack
+    bt = [t for t in triples if 0 not in t]
+    rng.shuffle(bt)
+    fs_cases = []
+    for i, t in enumerate(bt[:10 if tr == "quick" else 60] + [(32767, 32768, 65535), (255, 256, 65535)]):
+        for scheme in ("bls", "ps"):
+            if tr == "quick" and scheme == "ps" and i % 2:
+                continue
+            fs_cases.append(eng_stack.case(scheme, "direct" if i % 3 else "loud", 3, 2, rng.randrange(1 << 30), ids=sorted(t)))
+    fs = eng_stack.execute(pid, fs_cases, wd, verdict, drv)
+    log("key generations among boundary ids: %d runs, %d completed, drift in %d" % (fs["validated"], fs["completed"], fs["drift"]))
+    for k, v in fs["drift_kinds"].items():
+        print("DRIFT property=%s count=%d kind=full-stack run: %s" % (pid, v, k))
     rcode = verdict.finish()
     vlib.write_evidence(pid, "model_checking", dict(
+        keygen_runs_with_boundary_ids=fs["validated"],
         states=max(states, 1), transitions=max(transitions, 1),
         traces_validated_against_impl=st["validated"] + ds["validated"],
         samples=[dict(kind="wire vectors", ack=vec["ack"].get("65280"), sync_tail=vec["sync"].get("65280", [])[33:], topic_preimage=vec["topic"].get("65280"))]
@@ -136,7 +152,7 @@ def run(pid):
              "sessions: every 3-subset of the boundary set + seeded triples through fault-free RBC sessions (keygen, sign) and membership sync",
     ), [
         "SHA-256 collision freedom for topic names", "sessions use the scripted back end / honest parties (other properties cover faults)",
-        "stored-data / public-parameter serialisation with large ids is exercised by the full-stack part (when present)",
+        "stored-data / public-parameter serialisation with boundary ids: real BLS / PS key generations, reload, every subset signs and verifies",
     ], violations=len(verdict.violations))
     return rcode
 
